@@ -32,9 +32,6 @@ def sections_for(pid, ctx):
     out = []
     if pid in ("C17", "C03", "C14"):
         out.append(decoder_section(ctx))
-    try:
-        from . import regexsec
-        out += regexsec.sections_for(pid, ctx)
-    except ImportError:
-        pass
+    from . import regexsec
+    out += regexsec.sections_for(pid, ctx)
     return out
